@@ -100,6 +100,23 @@ Theorem C03_vmstack_convention : forall env fuel t vs b,
 Proof. intros env fuel t vs b Hwf. exact (vmstack_convention env fuel t Hwf vs b). Qed.
 Print Assumptions C03_vmstack_convention.
 
+(** VM cell slices (tlb.VmCellSlice: ^Cell st_bits:(## 10) end_bits:(## 10)
+    st_ref:(#<= 4) end_ref:(#<= 4)) round-trip for every window, in particular
+    the empty ones (st_bits = end_bits, st_ref = end_ref). *)
+Theorem C03_vmcellslice_roundtrip : forall c sb eb sr er cell,
+  (sb < 1024)%N -> (eb < 1024)%N -> (sr < 8)%N -> (er < 8)%N ->
+  let d := TStruct [TCellRef; TUint 10; TUint 10; TUint 3; TUint 3] in
+  let v := VStruct [VCell c; VN sb; VN eb; VN sr; VN er] in
+  encode [] d v = Ok cell -> decode [] d cell = Ok (v, mks [] []).
+Proof.
+  intros c sb eb sr er cell H1 H2 H3 H4 d v He.
+  apply generic_roundtrip; [reflexivity| |exact He].
+  apply N.ltb_lt in H1. apply N.ltb_lt in H2. apply N.ltb_lt in H3. apply N.ltb_lt in H4.
+  unfold in_domain, d, v. cbn [fuel_of ty_depth fold_right Nat.max Nat.add has_type].
+  change (2 ^ N.of_nat 10)%N with 1024%N. change (2 ^ N.of_nat 3)%N with 8%N.
+  rewrite H1, H2, H3, H4. reflexivity.
+Qed.
+
 (** What first-match decoding needs: without pairwise prefix-freeness the
     round trip is false — the decoder selects the earlier constructor. *)
 Theorem C03_shadowed_tag_refuted :
